@@ -5,7 +5,8 @@ ID = "C04"
 N = 0xFFFFFFFFFFFFFFFFFFFFFFFFFFFFFFFEBAAEDCE6AF48A03BBFD25E8CD0364141
 RULE = ("op acct.new <bytes> -> secret, 65-byte key, EIP-55 text: scalars 1,2,n-2,n-1 and random; 0,n,n+1,2^256-1 (must be rejected); "
         "keys whose public key has every possible first byte of X and of Y (found by walking k·G); every length 0..64 (zero-padded small values, random, all-ff); non-trivial = distinct input; "
-        "judge = secret·G by independent secp256k1, Keccak-256, EIP-55 written from the EIP")
+        "judge = secret·G by independent secp256k1, Keccak-256, EIP-55 written from the EIP; op secp.affine <scalar>: the code's public key against the affine arithmetic PROVED to be the secp256k1 group law "
+        "(Props/SecpInstance: addA_sound, mulA_sound, mulG_exec), which must also agree with the driver's fast Jacobian arithmetic: boundary scalars, powers of two, random")
 EXHAUSTIVE_SWEEPS = {"quick": ["all lengths 0..64", "first byte of X: 0..255", "first byte of Y: 0..255"], "thorough": ["all lengths 0..64", "first byte of X: 0..255", "first byte of Y: 0..255"]}
 
 
@@ -16,6 +17,13 @@ def gen(rng, tier):
     for _ in range(1500 if tier == "thorough" else 300):
         v = rng.choice([rng.randrange(1, N), rng.randrange(1, 2 ** 64), N - rng.randrange(1, 2 ** 32), rng.randrange(N, 2 ** 256)])
         cases.append(Case("acct.new %064x" % v, tags=("random",)))
+    # secret·G against the VERIFIED arithmetic: op secp.affine is answered on the model side by the affine double-and-add of
+    # Prim/SecpAffine.lean, which Props/SecpInstance.lean proves to be the group law of y² = x³ + 7 over ZMod p (Mathlib's
+    # WeierstrassCurve group), and which must also agree with the fast Jacobian arithmetic every other op of the driver uses
+    for v in [1, 2, 3, 4, 7, N - 1, N - 2, N - 3, (N - 1) // 2, (N + 1) // 2, 2 ** 128, 2 ** 255, 2 ** 256 - 2 ** 32 - 978, 0x4f3edf983ac636a65a842ce7c78d9aa706d3b113bce9c46f30d7d21715b23b1d] + \
+             [rng.randrange(1, N) for _ in range(120 if tier == "thorough" else 26)] + [1 << rng.randrange(1, 256) for _ in range(4)] + [(1 << rng.randrange(2, 256)) - 1 for _ in range(4)]:
+        if 0 < v < N:
+            cases.append(Case("secp.affine %064x" % v, tags=("verified-arithmetic",)))
     # keys chosen by what their public key looks like: every value of the first byte of X and of Y (a leading 0x04 looks like
     # the SEC1 tag, a leading 0x00 is where a stripped / re-padded coordinate shows), and the smallest X / Y met on the way
     from vlib import secp
